@@ -843,10 +843,10 @@ fn run(gen: &str) -> Value {
     let mut acc = Acc { tried: 0, found: vec![] };
     match gen {
         "c01" => { all_suites!(gen_c01, &mut acc); honest_with_ksf(&mut acc); }
-        "c09" => { oracle_twin(&mut acc); }
+        "c09" => { oracle_twin(&mut acc); argon2_adapter(&mut acc); }
         "c14" | "c17" => { all_suites!(gen_c17, &mut acc); }
         "c16" => { all_suites!(gen_c16, &mut acc); }
-        "c15" => { ksf_probe(&mut acc); }
+        "c15" => { ksf_probe(&mut acc); argon2_honest(&mut acc); }
         "c18" => { external_key_probe(&mut acc); external_key_faults(&mut acc); }
         "c02" => { all_suites!(gen_c02, &mut acc); }
         "c03" => { all_suites!(gen_c03, &mut acc); }
@@ -1059,6 +1059,50 @@ macro_rules! gen_c01_ksf {
     }};
 }
 fn honest_with_ksf(acc: &mut Acc) { gen_c01_ksf!(K_R_R, acc); gen_c01_ksf!(K_P256_X, acc); }
+/// RFC 9807 section 7 / 10: the Argon2 adapter is Argon2(params; password = OPRF output, salt = 16 zero bytes), output as long as the input
+/// (small memory parameters so that the probe is fast; the adapter does not look at them)
+fn argon2_adapter(acc: &mut Acc) {
+    use generic_array::{typenum::{U32, U64}, GenericArray};
+    use opaque_ke::ksf::Ksf;
+    for (m, t, p) in [(8u32, 1u32, 1u32), (16, 2, 1), (32, 1, 2)] {
+        let a = argon2::Argon2::new(argon2::Algorithm::Argon2id, argon2::Version::V0x13, argon2::Params::new(m, t, p, None).unwrap());
+        let mut rng = StdRng::seed_from_u64(900 + m as u64);
+        for _ in 0..3 {
+            acc.tried += 1;
+            let mut i32 = GenericArray::<u8, U32>::default(); rng.fill_bytes(&mut i32);
+            let mut i64 = GenericArray::<u8, U64>::default(); rng.fill_bytes(&mut i64);
+            let mut e32 = [0u8; 32]; a.hash_password_into(&i32, &[0u8; 16], &mut e32).unwrap();
+            let mut e64 = [0u8; 64]; a.hash_password_into(&i64, &[0u8; 16], &mut e64).unwrap();
+            match (Ksf::hash(&a, i32.clone()), Ksf::hash(&a, i64.clone())) {
+                (Ok(o32), Ok(o64)) => if o32.as_slice() != e32 || o64.as_slice() != e64 {
+                    acc.hit("argon2", "Argon2 adapter output differs from Argon2(params; input, 16 zero bytes of salt)", json!({"m_cost": m, "t_cost": t, "p_cost": p, "input32": hex::encode(&i32), "got32": hex::encode(&o32), "expected32": hex::encode(e32)})); },
+                (x, y) => acc.hit("argon2", "Argon2 adapter failed where argon2 succeeds", json!({"e32": format!("{:?}", x.err()), "e64": format!("{:?}", y.err())})),
+            }
+        }
+    }
+}
+pub struct A_R_R; impl CipherSuite for A_R_R { type OprfCs = opaque_ke::Ristretto255; type KeGroup = opaque_ke::Ristretto255; type KeyExchange = TripleDh; type Ksf = argon2::Argon2<'static>; }
+/// honest run with explicit small Argon2 parameters on both sides; different parameters must fail
+fn argon2_honest(acc: &mut Acc) {
+    let k1 = argon2::Argon2::new(argon2::Algorithm::Argon2id, argon2::Version::V0x13, argon2::Params::new(8, 1, 1, None).unwrap());
+    let k2 = argon2::Argon2::new(argon2::Algorithm::Argon2id, argon2::Version::V0x13, argon2::Params::new(16, 1, 1, None).unwrap());
+    for (i, (kr, kl, must)) in [(&k1, &k1, true), (&k1, &k2, false)].iter().enumerate() {
+        acc.tried += 1;
+        let r = (|| -> Result<bool, ProtocolError> {
+            let mut rng = StdRng::seed_from_u64(15900 + i as u64);
+            let setup = ServerSetup::<A_R_R>::new(&mut rng);
+            let c = ClientRegistration::<A_R_R>::start(&mut rng, b"pw")?;
+            let s = ServerRegistration::<A_R_R>::start(&setup, c.message, b"id")?;
+            let f = c.state.finish(&mut rng, b"pw", s.message, ClientRegistrationFinishParameters::new(Identifiers::default(), Some(*kr)))?;
+            let file = ServerRegistration::<A_R_R>::finish(f.message);
+            let cl = ClientLogin::<A_R_R>::start(&mut rng, b"pw")?;
+            let sl = ServerLogin::<A_R_R>::start(&mut rng, &setup, Some(file), cl.message, b"id", ServerLoginStartParameters::default())?;
+            Ok(cl.state.finish(b"pw", sl.message, ClientLoginFinishParameters::new(None, Identifiers::default(), Some(*kl))).is_ok())
+        })();
+        match r { Ok(ok) => if ok != *must { acc.hit("A_R_R", "Argon2 parameters selection / binding", json!({"same_parameters": must, "login_succeeded": ok})); },
+                  Err(e) => acc.hit("A_R_R", "run failed", json!({"error": format!("{:?}", e)})) }
+    }
+}
 fn ksf_probe(acc: &mut Acc) { gen_c15!(K_R_R, acc); gen_c15!(K_P256_X, acc); }
 
 /// C18: an external key that fails at the n-th interface call, for every n; equivalence with the direct-key server
